@@ -27,5 +27,15 @@ def run(tier, seed):
     vc.run_and_validate(rep, "adm", "harness.adm_adapter.run_script", "Trace_FimADM", scripts, [{}],
                         "every annotated aggregate model of the bound: partition, clause by clause, and re-keying",
                         batch_lines=2500)
+    # code -> spec: the repository's own advertisement models (realistic size), every clause evaluated by TLC
+    import glob
+    import os
+    import sys
+    from .. import adm_adapter
+    repo = os.environ.get("VERIF_REPO", "/repo")
+    files = sorted(glob.glob(os.path.join(repo, "*-ad.graphml")))
+    fscripts = [adm_adapter.file_script(f) for f in files]
+    vc.run_and_validate(rep, "adm", "harness.adm_adapter.run_script", "Trace_FimADM", fscripts, [{}],
+                        "the repository's advertisement models: " + ", ".join(os.path.basename(f) for f in files), batch_lines=10)
     rep.extra["exhaustive"] = True
     return rep
